@@ -164,12 +164,12 @@ def run(ctx):
         elif v == 4:
             excuse(c, compare_classes(tokens, rows), "a HAVING comparison differs from the comparison of the values")
 
-    exprs = T.htable(["-mode", "expr", "-n", 600 * mult, "-seed", ctx.seed])
+    exprs = T.htable(["-mode", "expr", "-n", 400 * mult, "-seed", ctx.seed])
     xc = T.coq_verdicts(ctx, "c13_expr", [expr_item(c) for c in exprs], imports="Expr ExprSpec")
     for c, v in zip(exprs, xc):
         dist["expr:%s:%s:%d" % (c["gen"], c["build"], v)] += 1
         judge(c, v, c["tokens"], c["rows"], "NewEvaluator / Evaluate")
-    e2e = T.htable(["-mode", "e2e13", "-n", 300 * mult, "-seed", ctx.seed])
+    e2e = T.htable(["-mode", "e2e13", "-n", 200 * mult, "-seed", ctx.seed])
     ec = T.coq_verdicts(ctx, "c13_e2e", [e2e_item(c) for c in e2e], imports="Expr ExprSpec", shard=300)
     for c, v in zip(e2e, ec):
         dist["e2e:%s:%s:%d" % (c["shape"], c["res"]["outcome"], v)] += 1
